@@ -2,12 +2,14 @@
     What is proved here: the fragment half of designation (JSON Pointer fragments reach
     exactly the location they spell, never another schema), the scope lookup of anchors is
     per resource by construction of the resolver model, and the URI functions are
-    executable transcriptions compared with net/url on every run.  The lexical
-    specification of base URIs / resources (DESIGN Appendix B) and the theorems
-    loader-once / termination over the resolver state machine are NOT proved yet; those
-    parts of the property are decided by the correspondence over generated universes. *)
+    executable transcriptions compared with net/url on every run.  Over the
+    resolver state machine: the loader is asked at most once per URI (C03_loader_once), the
+    Resolved is rooted at the given schema, and resolution always returns (props/C10.v:
+    never a panic, nested loads bounded by the loader's table).  The lexical specification
+    of base URIs / resources (DESIGN Appendix B) is NOT proved; that part of the property is
+    decided by the correspondence over generated universes. *)
 From Coq Require Import List NArith ZArith QArith Bool.
-From JS Require Import Str Lit Json Res GoValue Schema Basic Pointer PointerFacts ChildFacts Addressable Env Uri Resolve ResolveFacts.
+From JS Require Import Str Lit Json Res GoValue Schema Basic Pointer PointerFacts ChildFacts Addressable Env Uri Resolve ResolveFacts ResolveTotal.
 Import ListNotations.
 
 Theorem C03_pointer_fragment_sound : forall s ptr p c,
@@ -28,6 +30,13 @@ Theorem C03_resolved_root : forall re_ok fuel root baseURI loader e calls,
   node_at e (0%nat, []) = Some root /\ e_draft7 e = detectDraft7 root /\ e_version e = s_schema root.
 Proof. exact Resolve_root. Qed.
 Print Assumptions C03_resolved_root.
+
+(** the Loader is called at most once for each URI: a document is cached under its URI before
+    its own references are followed, and the cache is consulted before every load *)
+Theorem C03_loader_once : forall re_ok fuel root baseURI loader e calls,
+  Resolve re_ok fuel root baseURI loader = Ok (e, calls) -> NoDup calls.
+Proof. exact Resolve_loads_once. Qed.
+Print Assumptions C03_loader_once.
 
 (** non-vacuity / regression witnesses on the resolver model: a diamond of loader
     documents with an anchor fragment into a cached document (the former panic O-1), each
